@@ -1,14 +1,986 @@
-//! C16 — not implemented yet (stub).
-use crate::report::{Cfg, Meta, Report};
+//! C16 — standard-library integer arithmetic (std::math::u64, std::math::u256) is exact.
+//!
+//! For every exported procedure a one-call program is assembled once and then executed per operand
+//! case; the final stack is compared with native integer arithmetic (u64/u128, num-bigint), the
+//! canary below the operands must be intact and the depth must be as documented.
+//!
+//! The model is written from /repo/docs/src/user_docs/stdlib/math/u64.md and the `#!` contract
+//! comments heading each procedure in stdlib/asm/math/{u64,u256}.masm:
+//!  * a u64 is two u32 limbs, most significant limb closer to the top: `[a_hi, a_lo, ...]`;
+//!    binary procedures take `[b_hi, b_lo, a_hi, a_lo, ...]`;
+//!  * overflowing_{add,sub}: `[flag, c_hi, c_lo]`; overflowing_mul: the four limbs of the 128-bit
+//!    product, most significant on top; divmod: `[r_hi, r_lo, q_hi, q_lo]`;
+//!  * shl/shr/rotl/rotr take `[b, a_hi, a_lo]`, "the shift value should be in the range [0, 64),
+//!    otherwise it will result in an error";
+//!  * or/xor: "fails if [the limbs] are not [u32]"; all others: undefined on non-u32 limbs (the
+//!    oracle then only requires "no panic");
+//!  * u256: `[b7..b0, a7..a0, ...] -> [c7..c0, ...]`, limb 0 least significant (documented for
+//!    mul_unsafe; the undocumented procedures of the module are held to the same limb convention
+//!    and to the u64 module's operand order, a deeper than b, `sub = a - b`).
 
-pub fn meta() -> Meta {
-    Meta { level: "exploration", rule: "stub".into(), assumptions: vec![] }
+use crate::case::{err_kind, AsmOutcome, Case, ExecOutcome};
+use crate::report::{merge_all, Cfg, Meta, Report};
+use crate::util::{par_map, rng_for, Rng8, P};
+use assembly::Library;
+use num_bigint::BigUint;
+use processor::Program;
+use rand::Rng;
+use serde_json::json;
+
+const M32: u64 = 0xFFFF_FFFF;
+const MONITOR_EVERY: u64 = 200;
+
+// PROCEDURE TABLE
+// ================================================================================================
+
+#[derive(Clone, Copy, Debug, PartialEq, Eq)]
+enum Kind {
+    /// [b_hi, b_lo, a_hi, a_lo] -> ...
+    Bin64,
+    /// [a_hi, a_lo] -> ...
+    Un64,
+    /// [b, a_hi, a_lo] -> [c_hi, c_lo]
+    Shift64,
+    /// [b7..b0, a7..a0] -> ...
+    Bin256,
+    /// [a7..a0] -> ...
+    Un256,
 }
 
-pub fn run(_cfg: &Cfg) -> Report {
-    let mut rep = Report::new();
-    rep.inconclusive("not-implemented");
+impl Kind {
+    fn arity(self) -> usize {
+        match self {
+            Kind::Bin64 => 4,
+            Kind::Un64 => 2,
+            Kind::Shift64 => 3,
+            Kind::Bin256 => 16,
+            Kind::Un256 => 8,
+        }
+    }
+}
+
+const U64_PROCS: &[(&str, Kind)] = &[
+    ("overflowing_add", Kind::Bin64),
+    ("wrapping_add", Kind::Bin64),
+    ("wrapping_sub", Kind::Bin64),
+    ("overflowing_sub", Kind::Bin64),
+    ("wrapping_mul", Kind::Bin64),
+    ("overflowing_mul", Kind::Bin64),
+    ("lt", Kind::Bin64),
+    ("gt", Kind::Bin64),
+    ("lte", Kind::Bin64),
+    ("gte", Kind::Bin64),
+    ("eq", Kind::Bin64),
+    ("neq", Kind::Bin64),
+    ("eqz", Kind::Un64),
+    ("min", Kind::Bin64),
+    ("max", Kind::Bin64),
+    ("div", Kind::Bin64),
+    ("mod", Kind::Bin64),
+    ("divmod", Kind::Bin64),
+    ("and", Kind::Bin64),
+    ("or", Kind::Bin64),
+    ("xor", Kind::Bin64),
+    ("shl", Kind::Shift64),
+    ("shr", Kind::Shift64),
+    ("rotl", Kind::Shift64),
+    ("rotr", Kind::Shift64),
+    ("clz", Kind::Un64),
+    ("ctz", Kind::Un64),
+    ("clo", Kind::Un64),
+    ("cto", Kind::Un64),
+];
+
+const U256_PROCS: &[(&str, Kind)] = &[
+    ("add_unsafe", Kind::Bin256),
+    ("sub_unsafe", Kind::Bin256),
+    ("and", Kind::Bin256),
+    ("or", Kind::Bin256),
+    ("xor", Kind::Bin256),
+    ("iszero_unsafe", Kind::Un256),
+    ("eq_unsafe", Kind::Bin256),
+    ("mul_unsafe", Kind::Bin256),
+];
+
+#[derive(Clone, Debug)]
+struct Spec {
+    module: &'static str,
+    name: &'static str,
+    kind: Kind,
+    src: String,
+}
+
+impl Spec {
+    fn full(&self) -> String {
+        format!("{}::{}", self.module, self.name)
+    }
+}
+
+fn all_specs() -> Vec<Spec> {
+    let mut v = vec![];
+    for (m, list) in [("u64", U64_PROCS), ("u256", U256_PROCS)] {
+        for (name, kind) in list {
+            v.push(Spec {
+                module: m,
+                name,
+                kind: *kind,
+                src: format!("use.std::math::{m}\nbegin\n    exec.{m}::{name}\nend\n"),
+            });
+        }
+    }
+    v
+}
+
+/// names of the procedures a stdlib module really exports (from the shipped library itself)
+fn exported(module_path: &str) -> Vec<String> {
+    let lib = stdlib::StdLibrary::default();
+    let mut out = vec![];
+    for m in lib.modules() {
+        if m.path.as_str() == module_path {
+            for p in m.ast.procs() {
+                if p.is_export {
+                    out.push(p.name.to_string());
+                }
+            }
+            for r in m.ast.reexported_procs() {
+                out.push(r.name().to_string());
+            }
+        }
+    }
+    out.sort();
+    out
+}
+
+// MODEL
+// ================================================================================================
+
+#[derive(Clone, Debug, PartialEq, Eq)]
+enum Expect {
+    /// must succeed with these values on top of the rest of the stack (top first)
+    Out(Vec<u64>),
+    /// must fail with an ExecutionError; the &str names the reason (used in the signature)
+    Fail(&'static str),
+    /// documentation leaves the result undefined: only "no panic" is required
+    Undefined,
+}
+
+fn split(v: u64) -> [u64; 2] {
+    [v >> 32, v & M32]
+}
+
+fn model_u64(name: &str, kind: Kind, ops: &[u64]) -> Option<Expect> {
+    let is32 = |x: u64| x <= M32;
+    match kind {
+        Kind::Bin64 => {
+            if !ops.iter().all(|&x| is32(x)) {
+                return Some(match name {
+                    // "The input values are assumed to be represented using 32 bit limbs, fails if
+                    // they are not."
+                    "or" | "xor" => Expect::Fail("non-u32-limb-accepted"),
+                    _ => Expect::Undefined,
+                });
+            }
+            let b = (ops[0] << 32) | ops[1];
+            let a = (ops[2] << 32) | ops[3];
+            let flag = |c: bool| vec![c as u64];
+            let two = |c: u64| split(c).to_vec();
+            Some(match name {
+                "overflowing_add" => {
+                    let (c, o) = a.overflowing_add(b);
+                    Expect::Out(vec![o as u64, c >> 32, c & M32])
+                }
+                "wrapping_add" => Expect::Out(two(a.wrapping_add(b))),
+                "wrapping_sub" => Expect::Out(two(a.wrapping_sub(b))),
+                "overflowing_sub" => {
+                    let (c, o) = a.overflowing_sub(b);
+                    Expect::Out(vec![o as u64, c >> 32, c & M32])
+                }
+                "wrapping_mul" => Expect::Out(two(a.wrapping_mul(b))),
+                "overflowing_mul" => {
+                    let c = (a as u128) * (b as u128);
+                    Expect::Out(vec![
+                        ((c >> 96) as u64) & M32,
+                        ((c >> 64) as u64) & M32,
+                        ((c >> 32) as u64) & M32,
+                        (c as u64) & M32,
+                    ])
+                }
+                "lt" => Expect::Out(flag(a < b)),
+                "gt" => Expect::Out(flag(a > b)),
+                "lte" => Expect::Out(flag(a <= b)),
+                "gte" => Expect::Out(flag(a >= b)),
+                "eq" => Expect::Out(flag(a == b)),
+                "neq" => Expect::Out(flag(a != b)),
+                "min" => Expect::Out(two(if a < b { a } else { b })),
+                "max" => Expect::Out(two(if a > b { a } else { b })),
+                "div" => {
+                    if b == 0 {
+                        Expect::Fail("zero-divisor-accepted")
+                    } else {
+                        Expect::Out(two(a / b))
+                    }
+                }
+                "mod" => {
+                    if b == 0 {
+                        Expect::Fail("zero-divisor-accepted")
+                    } else {
+                        Expect::Out(two(a % b))
+                    }
+                }
+                "divmod" => {
+                    if b == 0 {
+                        Expect::Fail("zero-divisor-accepted")
+                    } else {
+                        let (q, r) = (a / b, a % b);
+                        Expect::Out(vec![r >> 32, r & M32, q >> 32, q & M32])
+                    }
+                }
+                "and" => Expect::Out(two(a & b)),
+                "or" => Expect::Out(two(a | b)),
+                "xor" => Expect::Out(two(a ^ b)),
+                _ => return None,
+            })
+        }
+        Kind::Un64 => {
+            if !ops.iter().all(|&x| is32(x)) {
+                return Some(Expect::Undefined);
+            }
+            let a = (ops[0] << 32) | ops[1];
+            Some(Expect::Out(vec![match name {
+                "eqz" => (a == 0) as u64,
+                "clz" => a.leading_zeros() as u64,
+                "ctz" => a.trailing_zeros() as u64,
+                "clo" => a.leading_ones() as u64,
+                "cto" => a.trailing_ones() as u64,
+                _ => return None,
+            }]))
+        }
+        Kind::Shift64 => {
+            if !is32(ops[1]) || !is32(ops[2]) {
+                return Some(Expect::Undefined);
+            }
+            let b = ops[0];
+            if b >= 64 {
+                // "The shift value should be in the range [0, 64), otherwise it will result in an
+                // error."
+                return Some(Expect::Fail("out-of-range-shift-accepted"));
+            }
+            let a = (ops[1] << 32) | ops[2];
+            let c = match name {
+                "shl" => a << b,
+                "shr" => a >> b,
+                "rotl" => a.rotate_left(b as u32),
+                "rotr" => a.rotate_right(b as u32),
+                _ => return None,
+            };
+            Some(Expect::Out(split(c).to_vec()))
+        }
+        _ => None,
+    }
+}
+
+/// limbs given most-significant first (stack order) -> integer
+fn big_from_top_first(l: &[u64]) -> BigUint {
+    BigUint::new(l.iter().rev().map(|&x| x as u32).collect())
+}
+
+/// integer (< 2^256) -> 8 limbs, most significant first
+fn big_to_top_first(v: &BigUint) -> Vec<u64> {
+    let mut d: Vec<u64> = v.to_u32_digits().into_iter().map(|x| x as u64).collect();
+    d.resize(8, 0);
+    d.truncate(8);
+    d.reverse();
+    d
+}
+
+fn model_u256(name: &str, kind: Kind, ops: &[u64]) -> Option<Expect> {
+    if !ops.iter().all(|&x| x <= M32) {
+        return Some(Expect::Undefined);
+    }
+    let modulus = BigUint::from(1u8) << 256;
+    match kind {
+        Kind::Un256 => {
+            let a = big_from_top_first(&ops[0..8]);
+            match name {
+                "iszero_unsafe" => Some(Expect::Out(vec![(a == BigUint::from(0u8)) as u64])),
+                _ => None,
+            }
+        }
+        Kind::Bin256 => {
+            let b = big_from_top_first(&ops[0..8]);
+            let a = big_from_top_first(&ops[8..16]);
+            Some(Expect::Out(match name {
+                "add_unsafe" => big_to_top_first(&((&a + &b) % &modulus)),
+                "sub_unsafe" => big_to_top_first(&((&a + &modulus - &b) % &modulus)),
+                "mul_unsafe" => big_to_top_first(&((&a * &b) % &modulus)),
+                "and" => big_to_top_first(&(&a & &b)),
+                "or" => big_to_top_first(&(&a | &b)),
+                "xor" => big_to_top_first(&(&a ^ &b)),
+                "eq_unsafe" => vec![(a == b) as u64],
+                _ => return None,
+            }))
+        }
+        _ => None,
+    }
+}
+
+fn model(spec: &Spec, ops: &[u64]) -> Option<Expect> {
+    match spec.module {
+        "u64" => model_u64(spec.name, spec.kind, ops),
+        _ => model_u256(spec.name, spec.kind, ops),
+    }
+}
+
+// ONE EVALUATION
+// ================================================================================================
+
+struct Ctx<'a> {
+    rep: &'a mut Report,
+    rng: &'a mut Rng8,
+    ok_seen: u64,
+}
+
+fn witness(spec: &Spec, class: &str, case: &Case) -> serde_json::Value {
+    json!({"kind": "c16", "module": spec.module, "proc": spec.name, "class": class, "case": case.to_json()})
+}
+
+/// Runs the one-call program of `spec` on `stack` (top first: operands, then canary) and applies
+/// the oracle. `key` is the coverage key of this case.
+fn evaluate(spec: &Spec, prog: &Program, stack: &[u64], class: &str, key: &str, cx: &mut Ctx) {
+    let ar = spec.kind.arity();
+    let full = spec.full();
+    let expect = match model(spec, &stack[..ar]) {
+        Some(e) => e,
+        None => {
+            cx.rep.inconclusive(format!("no-model-for:{full}"));
+            return;
+        }
+    };
+    let rest = &stack[ar..];
+    let mut case = Case::new(spec.src.clone()).with_stack(stack);
+    case.stdlib = true;
+    let out = case.execute(prog);
+    cx.rep.count("proc", &full);
+    cx.rep.count("class", &format!("{full}|{class}"));
+    let oc = match &out {
+        ExecOutcome::Ok(_) => "ok".to_string(),
+        ExecOutcome::Err(e) => format!("err:{}", err_kind(e)),
+        ExecOutcome::Panic(_) => "panic".to_string(),
+    };
+    cx.rep.count("outcome", &format!("{full}|{oc}"));
+    let exp_tag = match &expect {
+        Expect::Out(_) => "value",
+        Expect::Fail(_) => "must-fail",
+        Expect::Undefined => "undefined",
+    };
+    cx.rep.count("expectation", &format!("{}|{exp_tag}", spec.module));
+    cx.rep.eval(&format!("{key}|{exp_tag}"));
+
+    match (expect, out) {
+        (_, ExecOutcome::Panic(p)) => {
+            cx.rep.violation(
+                format!("{full}/panic/{}", p.site()),
+                format!("{full} panicked ({}) at {} on operands {:?}", p.message, p.location, &stack[..ar]),
+                witness(spec, class, &case),
+            );
+        }
+        (Expect::Out(v), ExecOutcome::Ok(mut trace)) => {
+            let got: Vec<u64> = trace.stack_outputs().stack().to_vec();
+            let mut want: Vec<u64> = v.clone();
+            want.extend_from_slice(rest);
+            let depth = want.len();
+            while want.len() < 16 {
+                want.push(0);
+            }
+            if got != want {
+                let res_ok = got.len() >= v.len() && got[..v.len()] == v[..];
+                let canary_ok = got.len() >= depth && got[v.len()..depth] == *rest;
+                let (sig, what) = if !res_ok {
+                    ("result-mismatch", "result limbs differ from the integer function")
+                } else if !canary_ok {
+                    ("canary-clobbered", "elements below the operands were modified")
+                } else {
+                    ("depth-mismatch", "stack depth after the call is not as documented")
+                };
+                cx.rep.violation(
+                    format!("{full}/{sig}"),
+                    format!(
+                        "{full}: {what}; operands(top first)={:?} expected top={:?} got top={:?} (expected depth {}, got len {})",
+                        &stack[..ar],
+                        &want[..v.len().min(want.len())],
+                        &got[..v.len().min(got.len())],
+                        depth.max(16),
+                        got.len()
+                    ),
+                    witness(spec, class, &case),
+                );
+            } else {
+                cx.ok_seen += 1;
+                if cx.ok_seen % MONITOR_EVERY == 0 {
+                    cx.rep.count("side_monitor", &full);
+                    crate::props::c03::monitor_trace(&case, &mut trace, cx.rng, 1, 0, cx.rep);
+                }
+                if cx.rep.samples.len() < 6 && cx.ok_seen % 97 == 1 {
+                    cx.rep.sample(json!({"proc": full, "class": class, "stack_top_first": stack.iter().map(|x| x.to_string()).collect::<Vec<_>>(), "result_top_first": v}));
+                }
+            }
+        }
+        (Expect::Out(v), ExecOutcome::Err(e)) => {
+            cx.rep.violation(
+                format!("{full}/unexpected-failure"),
+                format!("{full} failed with {e} on valid operands {:?}; expected {:?}", &stack[..ar], v),
+                witness(spec, class, &case),
+            );
+        }
+        (Expect::Fail(why), ExecOutcome::Ok(trace)) => {
+            let got: Vec<u64> = trace.stack_outputs().stack().iter().take(4).copied().collect();
+            cx.rep.violation(
+                format!("{full}/{why}"),
+                format!("{full} succeeded (top of stack {:?}) on operands {:?} where the contract requires a failure", got, &stack[..ar]),
+                witness(spec, class, &case),
+            );
+        }
+        (Expect::Fail(_), ExecOutcome::Err(e)) => {
+            cx.rep.count("required_failures", &format!("{full}|{}", err_kind(&e)));
+        }
+        (Expect::Undefined, _) => {}
+    }
+}
+
+// OPERAND GENERATION
+// ================================================================================================
+
+const L3: [u64; 3] = [0, 1, M32];
+
+fn l9(i: usize, rng: &mut Rng8) -> u64 {
+    match i {
+        0 => 0,
+        1 => 1,
+        2 => 2,
+        3 => 1 << 16,
+        4 => (1 << 31) - 1,
+        5 => 1 << 31,
+        6 => M32 - 1,
+        7 => M32,
+        _ => rng.gen::<u32>() as u64,
+    }
+}
+
+/// `n` unique elements that cannot be mistaken for limbs (all > 2^33)
+fn canary(rng: &mut Rng8, n: usize) -> Vec<u64> {
+    let mut v: Vec<u64> = vec![];
+    while v.len() < n {
+        let x = rng.gen_range((1u64 << 33)..P);
+        if !v.contains(&x) {
+            v.push(x);
+        }
+    }
+    v
+}
+
+fn with_canary(ops: &[u64], rng: &mut Rng8, deep: bool) -> Vec<u64> {
+    let mut s = ops.to_vec();
+    s.extend(canary(rng, if deep { 16 } else { 8 }));
+    s
+}
+
+fn rand_bits(rng: &mut Rng8) -> u64 {
+    // random bit length, then random value of that length
+    let bits = rng.gen_range(0..=64u32);
+    if bits == 0 {
+        0
+    } else if bits == 64 {
+        rng.gen::<u64>() | (1 << 63)
+    } else {
+        (rng.gen::<u64>() & ((1u64 << bits) - 1)) | (1u64 << (bits - 1))
+    }
+}
+
+/// random pair (a, b) from several distributions; returns (class, a, b)
+fn rand_pair(rng: &mut Rng8) -> (&'static str, u64, u64) {
+    match rng.gen_range(0..10) {
+        0..=2 => ("uniform", rng.gen(), rng.gen()),
+        3..=4 => ("bitlen", rand_bits(rng), rand_bits(rng)),
+        5 => {
+            // near: b = a + small delta (wrapping)
+            let a: u64 = if rng.gen_bool(0.5) { rng.gen() } else { (rng.gen::<u32>() as u64) << 32 };
+            let d = rng.gen_range(0..3u64);
+            ("near", a, if rng.gen_bool(0.5) { a.wrapping_add(d) } else { a.wrapping_sub(d) })
+        }
+        6 => {
+            // a = q*b + r with r at the extremes (division boundary)
+            let b = rand_bits(rng).max(1);
+            let qmax = u64::MAX / b;
+            let q = if qmax == 0 { 0 } else { rand_bits(rng) % (qmax + 1) };
+            let r = match rng.gen_range(0..3) {
+                0 => 0,
+                1 => b - 1,
+                _ => rng.gen_range(0..b),
+            };
+            let a = (q as u128 * b as u128 + r as u128).min(u64::MAX as u128) as u64;
+            ("qb+r", a, b)
+        }
+        7 => {
+            // powers of two +-1 around limb boundaries
+            let p = |rng: &mut Rng8| -> u64 {
+                let k = rng.gen_range(0..64);
+                match rng.gen_range(0..4) {
+                    0 => 1u64 << k,
+                    1 => (1u64 << k).wrapping_sub(1),
+                    2 => (1u64 << k).wrapping_add(1),
+                    _ => !(1u64 << k),
+                }
+            };
+            ("pow2", p(rng), p(rng))
+        }
+        8 => {
+            // one limb random, others boundary
+            let mut l = [0u64; 4];
+            for x in l.iter_mut() {
+                *x = L3[rng.gen_range(0..3)];
+            }
+            l[rng.gen_range(0..4)] = rng.gen::<u32>() as u64;
+            ("limbmix", (l[0] << 32) | l[1], (l[2] << 32) | l[3])
+        }
+        _ => ("small-b", rng.gen(), rng.gen_range(0..70000u64)),
+    }
+}
+
+fn non_u32(rng: &mut Rng8) -> u64 {
+    match rng.gen_range(0..5) {
+        0 => 1 << 32,
+        1 => P - 1,
+        2 => (1 << 32) + 1,
+        3 => 1 << 63,
+        _ => rng.gen_range((1u64 << 32)..P),
+    }
+}
+
+fn lz_bucket(v: u64) -> u32 {
+    v.leading_zeros() / 8
+}
+
+fn run_u64_grid(spec: &Spec, prog: &Program, shard: usize, shards: usize, pi: usize, cx: &mut Ctx) {
+    let full = spec.full();
+    match spec.kind {
+        Kind::Bin64 => {
+            // 3^4 boundary cross product
+            for g in 0..81usize {
+                if (g + pi) % shards != shard {
+                    continue;
+                }
+                let ops = [L3[g / 27], L3[g / 9 % 3], L3[g / 3 % 3], L3[g % 3]];
+                let st = with_canary(&ops, cx.rng, g % 4 == 3);
+                cx.rep.count("grid3", &full);
+                evaluate(spec, prog, &st, "grid3", &format!("{full}|grid3|{g}"), cx);
+            }
+            // 9^4 cross product (the 9th value is a fresh random limb each time)
+            for g in 0..6561usize {
+                if (g + pi) % shards != shard {
+                    continue;
+                }
+                let idx = [g / 729, g / 81 % 9, g / 9 % 9, g % 9];
+                let ops = [l9(idx[0], cx.rng), l9(idx[1], cx.rng), l9(idx[2], cx.rng), l9(idx[3], cx.rng)];
+                let st = with_canary(&ops, cx.rng, g % 4 == 3);
+                cx.rep.count("grid9", &full);
+                evaluate(spec, prog, &st, "grid9", &format!("{full}|grid9|{g}"), cx);
+            }
+        }
+        Kind::Un64 => {
+            for g in 0..9usize {
+                if (g + pi) % shards != shard {
+                    continue;
+                }
+                let ops = [L3[g / 3], L3[g % 3]];
+                let st = with_canary(&ops, cx.rng, g % 4 == 3);
+                cx.rep.count("grid3", &full);
+                evaluate(spec, prog, &st, "grid3", &format!("{full}|grid3|{g}"), cx);
+            }
+            for g in 0..81usize {
+                if (g + pi) % shards != shard {
+                    continue;
+                }
+                let ops = [l9(g / 9, cx.rng), l9(g % 9, cx.rng)];
+                let st = with_canary(&ops, cx.rng, g % 4 == 3);
+                cx.rep.count("grid9", &full);
+                evaluate(spec, prog, &st, "grid9", &format!("{full}|grid9|{g}"), cx);
+            }
+            // bit patterns: 1<<k, (1<<k)-1, !(1<<k), !((1<<k)-1)
+            for g in 0..256usize {
+                if (g + pi) % shards != shard {
+                    continue;
+                }
+                let k = g % 64;
+                let a = match g / 64 {
+                    0 => 1u64 << k,
+                    1 => (1u64 << k) - 1,
+                    2 => !(1u64 << k),
+                    _ => !((1u64 << k) - 1),
+                };
+                let st = with_canary(&split(a), cx.rng, g % 4 == 3);
+                cx.rep.count("bitpat", &full);
+                evaluate(spec, prog, &st, "bitpat", &format!("{full}|bitpat|{g}"), cx);
+            }
+        }
+        Kind::Shift64 => {
+            // all amounts 0..63 x boundary operands (9 from {0,1,2^32-1}^2 + 81 from the 9-set^2)
+            for b in 0..64u64 {
+                for o in 0..90usize {
+                    let g = b as usize * 90 + o;
+                    if (g + pi) % shards != shard {
+                        continue;
+                    }
+                    let (hi, lo) = if o < 9 {
+                        (L3[o / 3], L3[o % 3])
+                    } else {
+                        (l9((o - 9) / 9, cx.rng), l9((o - 9) % 9, cx.rng))
+                    };
+                    let st = with_canary(&[b, hi, lo], cx.rng, g % 4 == 3);
+                    if o < 9 {
+                        cx.rep.count("shift_grid3", &format!("{full}|{b}"));
+                    }
+                    cx.rep.count("shift_amount", &format!("{full}|{b}"));
+                    evaluate(spec, prog, &st, "shift-grid", &format!("{full}|shift|{b}|{o}"), cx);
+                }
+            }
+            // out-of-range amounts: the contract promises an error
+            let bad = [64u64, 65, 95, 96, 127, 128, 255, 256, 1 << 16, M32, 1 << 32, (1 << 32) + 5, P - 1];
+            for (bi, &b) in bad.iter().enumerate() {
+                for o in 0..9usize {
+                    let g = bi * 9 + o;
+                    if (g + pi) % shards != shard {
+                        continue;
+                    }
+                    let st = with_canary(&[b, L3[o / 3], L3[o % 3]], cx.rng, false);
+                    evaluate(spec, prog, &st, "shift-out-of-range", &format!("{full}|shift-oor|{bi}|{o}"), cx);
+                }
+            }
+        }
+        _ => {}
+    }
+}
+
+fn run_u64_random(spec: &Spec, prog: &Program, n: usize, cx: &mut Ctx) {
+    let full = spec.full();
+    for i in 0..n {
+        let deep = i % 4 == 3;
+        match spec.kind {
+            Kind::Bin64 => {
+                let (cls, a, b) = rand_pair(cx.rng);
+                let mut ops = [b >> 32, b & M32, a >> 32, a & M32];
+                let mut class = cls;
+                if i % 50 == 49 {
+                    // non-u32 limb: undefined (or/xor: must fail)
+                    ops[cx.rng.gen_range(0..4)] = non_u32(cx.rng);
+                    class = "non-u32";
+                }
+                let st = with_canary(&ops, cx.rng, deep);
+                evaluate(spec, prog, &st, class, &format!("{full}|{class}|{}|{}", lz_bucket(a), lz_bucket(b)), cx);
+            }
+            Kind::Un64 => {
+                let (cls, a, _) = rand_pair(cx.rng);
+                let mut ops = split(a);
+                let mut class = cls;
+                if i % 50 == 49 {
+                    ops[cx.rng.gen_range(0..2)] = non_u32(cx.rng);
+                    class = "non-u32";
+                }
+                let st = with_canary(&ops, cx.rng, deep);
+                evaluate(spec, prog, &st, class, &format!("{full}|{class}|{}", a.leading_zeros()), cx);
+            }
+            Kind::Shift64 => {
+                let (cls, a, _) = rand_pair(cx.rng);
+                let b = cx.rng.gen_range(0..64u64);
+                let mut ops = [b, a >> 32, a & M32];
+                let mut class = cls;
+                if i % 50 == 49 {
+                    ops[cx.rng.gen_range(1..3)] = non_u32(cx.rng);
+                    class = "non-u32";
+                }
+                let st = with_canary(&ops, cx.rng, deep);
+                cx.rep.count("shift_amount", &format!("{full}|{b}"));
+                evaluate(spec, prog, &st, class, &format!("{full}|{class}|{b}|{}", lz_bucket(a)), cx);
+            }
+            _ => {}
+        }
+    }
+}
+
+/// 8 limbs (most significant first) from {0,1,2^32-1}^8, pattern index < 6561
+fn pat3_256(g: usize) -> [u64; 8] {
+    let mut l = [0u64; 8];
+    let mut x = g;
+    for i in (0..8).rev() {
+        l[i] = L3[x % 3];
+        x /= 3;
+    }
+    l
+}
+
+fn rand_u256(rng: &mut Rng8) -> [u64; 8] {
+    let mut l = [0u64; 8];
+    match rng.gen_range(0..4) {
+        0 => {
+            for x in l.iter_mut() {
+                *x = rng.gen::<u32>() as u64;
+            }
+        }
+        1 => {
+            for x in l.iter_mut() {
+                *x = l9(rng.gen_range(0..9), rng);
+            }
+        }
+        2 => {
+            // random bit length
+            let bits = rng.gen_range(0..=256usize);
+            for (i, x) in l.iter_mut().enumerate() {
+                // limb i is most significant first: limb index from LSB = 7 - i
+                let lo = (7 - i) * 32;
+                if bits >= lo + 32 {
+                    *x = rng.gen::<u32>() as u64;
+                } else if bits > lo {
+                    *x = (rng.gen::<u32>() as u64) & ((1u64 << (bits - lo)) - 1);
+                }
+            }
+        }
+        _ => {
+            for x in l.iter_mut() {
+                *x = L3[rng.gen_range(0..3)];
+            }
+            l[rng.gen_range(0..8)] = rng.gen::<u32>() as u64;
+        }
+    }
+    l
+}
+
+const N_PARTNERS: usize = 7;
+
+fn partner(kind: usize, x: &[u64; 8], rng: &mut Rng8) -> ([u64; 8], &'static str) {
+    match kind {
+        0 => ([0; 8], "zero"),
+        1 => {
+            let mut l = [0; 8];
+            l[7] = 1;
+            (l, "one")
+        }
+        2 => ([M32; 8], "max"),
+        3 => (*x, "same"),
+        4 => (pat3_256(rng.gen_range(0..6561)), "pat3"),
+        5 => {
+            // x with one limb changed (equality / borrow chains)
+            let mut l = *x;
+            let i = rng.gen_range(0..8);
+            l[i] = (l[i] + 1) & M32;
+            (l, "one-limb-off")
+        }
+        _ => (rand_u256(rng), "random"),
+    }
+}
+
+fn run_u256_grid(spec: &Spec, prog: &Program, shard: usize, shards: usize, pi: usize, both_orders: bool, cx: &mut Ctx) {
+    let full = spec.full();
+    for g in 0..6561usize {
+        if (g + pi) % shards != shard {
+            continue;
+        }
+        let x = pat3_256(g);
+        match spec.kind {
+            Kind::Un256 => {
+                let st = with_canary(&x, cx.rng, g % 2 == 1);
+                cx.rep.count("pat3_256", &full);
+                evaluate(spec, prog, &st, "pat3", &format!("{full}|pat3|{g}"), cx);
+            }
+            Kind::Bin256 => {
+                cx.rep.count("pat3_256", &full);
+                for k in 0..N_PARTNERS {
+                    let (y, pname) = partner(k, &x, cx.rng);
+                    let orders: &[bool] = if both_orders { &[false, true] } else if (g + k) % 2 == 0 { &[false] } else { &[true] };
+                    for &swap in orders {
+                        let mut ops = Vec::with_capacity(16);
+                        if swap {
+                            ops.extend_from_slice(&x);
+                            ops.extend_from_slice(&y);
+                        } else {
+                            ops.extend_from_slice(&y);
+                            ops.extend_from_slice(&x);
+                        }
+                        let st = with_canary(&ops, cx.rng, false);
+                        let class = format!("pat3-x-{pname}");
+                        evaluate(spec, prog, &st, &class, &format!("{full}|{class}|{g}|{swap}"), cx);
+                    }
+                }
+            }
+            _ => {}
+        }
+    }
+}
+
+fn run_u256_random(spec: &Spec, prog: &Program, n: usize, cx: &mut Ctx) {
+    let full = spec.full();
+    for i in 0..n {
+        let a = rand_u256(cx.rng);
+        let mut ops: Vec<u64> = vec![];
+        let mut class = "random";
+        if spec.kind == Kind::Bin256 {
+            let b = if i % 8 == 7 { a } else { rand_u256(cx.rng) };
+            ops.extend_from_slice(&b);
+        }
+        ops.extend_from_slice(&a);
+        if i % 50 == 49 {
+            let j = cx.rng.gen_range(0..ops.len());
+            ops[j] = non_u32(cx.rng);
+            class = "non-u32";
+        }
+        let st = with_canary(&ops, cx.rng, false);
+        let nz = ops.iter().filter(|&&x| x != 0).count();
+        evaluate(spec, prog, &st, class, &format!("{full}|{class}|{nz}"), cx);
+    }
+}
+
+// DRIVER
+// ================================================================================================
+
+fn assemble(spec: &Spec) -> Result<Box<Program>, String> {
+    let mut c = Case::new(spec.src.clone());
+    c.stdlib = true;
+    match c.assemble() {
+        AsmOutcome::Ok(p) => Ok(p),
+        AsmOutcome::Err(e) => Err(e),
+        AsmOutcome::Panic(p) => Err(format!("panic {}", p.site())),
+    }
+}
+
+pub fn meta() -> Meta {
+    Meta {
+        level: "exploration",
+        rule: "each evaluation = one execution of the one-call program `use.std::math::M begin exec.M::PROC end` (assembled once against StdLibrary) on a stack of operand limbs + 8 (or 16) unique canary elements, whose complete final stack (result limbs, canary, zero padding / exact depth) was compared with native u64/u128/BigUint arithmetic, or which was required to fail (zero divisor, shift amount >= 64, non-u32 limb for or/xor); operand sources: full {0,1,2^32-1}^4 cross product, full 9-value^4 cross product, all shift amounts 0..63 x 90 boundary operands, 256 single-bit/mask patterns for unary procedures, u256: all 3^8 limb patterns x 7 partner kinds, plus random pairs from 8 distributions; distinct = distinct (procedure, operand class, grid index or leading-zero bucket, expectation kind)".into(),
+        assumptions: vec![
+            "Rust u64/u128 and num-bigint arithmetic are the reference integer functions".into(),
+            "stack order and failure conditions are taken from docs/src/user_docs/stdlib/math/u64.md and the #! comments in stdlib/asm/math/{u64,u256}.masm; rotl/rotr are rotations (their formula line is a copy of shl's); overflowing_mul returns the 128-bit product".into(),
+            "undocumented u256 procedures follow the limb order documented for u256::mul_unsafe and the u64 operand order (a below b, sub = a - b)".into(),
+            "operands are sampled for the random classes; 2^128 pairs are not enumerated".into(),
+        ],
+    }
+}
+
+pub fn run(cfg: &Cfg) -> Report {
+    let specs = all_specs();
+    let mut head = Report::new();
+
+    // the table above must cover exactly what the library exports
+    for (m, path) in [("u64", "std::math::u64"), ("u256", "std::math::u256")] {
+        let exp = exported(path);
+        let mut mine: Vec<String> = specs.iter().filter(|s| s.module == m).map(|s| s.name.to_string()).collect();
+        mine.sort();
+        head.note(&format!("exports_{m}"), json!(exp));
+        for e in &exp {
+            if !mine.contains(e) {
+                head.inconclusive(format!("exported-procedure-without-model:{m}::{e}"));
+            }
+        }
+        for s in &mine {
+            if !exp.contains(s) {
+                head.inconclusive(format!("modelled-procedure-not-exported:{m}::{s}"));
+            }
+        }
+        head.floor(!exp.is_empty(), &format!("exports-of-{m}-enumerated"));
+    }
+
+    let mut progs: Vec<Box<Program>> = vec![];
+    for s in &specs {
+        match assemble(s) {
+            Ok(p) => progs.push(p),
+            Err(e) => {
+                head.inconclusive(format!("cannot-assemble:{}:{}", s.full(), crate::report::truncate(&e, 80)));
+                return head;
+            }
+        }
+    }
+
+    let shards = 64usize;
+    let n_rand_64 = cfg.n(600, 60_000); // per shard per procedure
+    let n_rand_256 = cfg.n(60, 4_000);
+    let both_orders = cfg.tier == crate::report::Tier::Thorough;
+    let reports = par_map(shards, |sh| {
+        let mut rng = rng_for(cfg.seed, "C16", sh as u64);
+        let mut rep = Report::new();
+        let mut cx = Ctx { rep: &mut rep, rng: &mut rng, ok_seen: sh as u64 * 7 };
+        for (pi, (spec, prog)) in specs.iter().zip(progs.iter()).enumerate() {
+            if spec.module == "u64" {
+                run_u64_grid(spec, prog, sh, shards, pi, &mut cx);
+                run_u64_random(spec, prog, n_rand_64, &mut cx);
+            } else {
+                run_u256_grid(spec, prog, sh, shards, pi, both_orders, &mut cx);
+                run_u256_random(spec, prog, n_rand_256, &mut cx);
+            }
+        }
+        rep
+    });
+    let mut rep = merge_all(reports);
+    rep.merge(head);
+
+    // floors
+    let min_evals = 2_000u64;
+    for s in &specs {
+        let full = s.full();
+        rep.floor(rep.get_count("proc", &full) >= min_evals, &format!("{full}-exercised-{min_evals}x"));
+        match s.kind {
+            Kind::Bin64 => {
+                rep.floor(rep.get_count("grid3", &full) == 81, &format!("{full}-all-81-boundary-pairs"));
+                rep.floor(rep.get_count("grid9", &full) == 6561, &format!("{full}-all-6561-nine-value-pairs"));
+            }
+            Kind::Un64 => {
+                rep.floor(rep.get_count("grid3", &full) == 9, &format!("{full}-all-9-boundary-operands"));
+                rep.floor(rep.get_count("bitpat", &full) == 256, &format!("{full}-all-256-bit-patterns"));
+            }
+            Kind::Shift64 => {
+                let all = (0..64).all(|b| rep.get_count("shift_grid3", &format!("{full}|{b}")) == 9);
+                rep.floor(all, &format!("{full}-every-amount-0..63-x-9-boundary-operands"));
+            }
+            Kind::Bin256 | Kind::Un256 => {
+                rep.floor(rep.get_count("pat3_256", &full) == 6561, &format!("{full}-all-6561-limb-patterns"));
+            }
+        }
+    }
+    for d in ["div", "mod", "divmod"] {
+        let n: u64 = rep
+            .hist
+            .get("required_failures")
+            .map(|h| h.iter().filter(|(k, _)| k.starts_with(&format!("u64::{d}|"))).map(|(_, v)| *v).sum())
+            .unwrap_or(0);
+        rep.floor(n >= 9, &format!("u64::{d}-zero-divisor-failures-observed"));
+    }
+    rep.floor(rep.hist_len("side_monitor") >= 20, "side-monitor-saw-20-procedures");
     rep
 }
 
-pub fn replay(_v: &serde_json::Value, _rep: &mut Report) {}
+pub fn replay(v: &serde_json::Value, rep: &mut Report) {
+    let (Some(module), Some(name)) = (v.get("module").and_then(|x| x.as_str()), v.get("proc").and_then(|x| x.as_str())) else {
+        // a side-monitor (C03) witness: plain case
+        if let Some(case) = v.get("case").and_then(Case::from_json) {
+            let mut rng = rng_for(0, "C16-replay", 0);
+            crate::props::c03::run_case(&case, &mut rng, rep, false);
+        }
+        return;
+    };
+    let Some(case) = v.get("case").and_then(Case::from_json) else { return };
+    let Some(spec) = all_specs().into_iter().find(|s| s.module == module && s.name == name) else {
+        rep.inconclusive("replay:unknown-procedure");
+        return;
+    };
+    if case.stack.len() < spec.kind.arity() {
+        rep.inconclusive("replay:stack-too-short");
+        return;
+    }
+    let prog = match assemble(&spec) {
+        Ok(p) => p,
+        Err(e) => {
+            rep.inconclusive(format!("replay:cannot-assemble:{e}"));
+            return;
+        }
+    };
+    let mut rng = rng_for(0, "C16-replay", 0);
+    let class = v.get("class").and_then(|c| c.as_str()).unwrap_or("replay").to_string();
+    let mut cx = Ctx { rep, rng: &mut rng, ok_seen: MONITOR_EVERY - 1 };
+    evaluate(&spec, &prog, &case.stack, &class, &format!("{}|replay", spec.full()), &mut cx);
+}
